@@ -15,7 +15,8 @@ RULE = ('Hypothesis-generated resource-hungry programs (pushes, COPY 255, DUP/CO
         'callstack_limit) from 1 upward, plus a fixed deep-nesting family; executed with monitors on every deque '
         'mutation, every Tape.read / pointer assignment, every run_tape activation and CALL/EVAL chain, and with '
         'tracemalloc in the memory task. non-trivial = a limit was actually hit (rejected put / read / call / loop '
-        'iteration) or the stack reached max_items - 1; distinct = digest of (script, limits).')
+        'iteration) or the stack reached max_items - 1; distinct = digest of (script, limits).'
+        ' Deep families taproot-nest / merkleval-nest / mixed-nest (limit-1 .. limit+2 nested evaluations) and copy-scale (up to 5101 items under max_items 1023 .. 70000); the monitored storage keeps the bound chosen by the Stack under test; the plain run leaves the stack the monitored run left.')
 ASSUMPTIONS = ['monitors are harness-side subclasses bound by rebinding functions.Tape / Stack / run_tape / OP_CALL / OP_EVAL',
                'memory bound: tracemalloc peak <= 8 MiB + 8*(max_items*max_item_size) + 4*len(script)*(nesting+1)',
                '1000 frames of recursion headroom, as an embedder with the default CPython limit has']
@@ -128,6 +129,7 @@ def run_monitored(script, limits, trace_memory=False, cache=None):
                     tracemalloc.stop()
             res['hw'] = stack.deque.hw
             res['final_len'] = len(stack.deque)
+            res['final'] = list(stack.deque)
     finally:
         env.unpin_clock()
         env.unpin_random()
@@ -161,10 +163,16 @@ def evaluate(script, limits, trace_memory=False):
         try:
             with headroom(1000):
                 env.pin_random(b'c07')
+                env.pin_clock(1_700_000_000)
                 try:
-                    F.run_script(script, {}, stack_max_items=mi, stack_max_item_size=ms, callstack_limit=cl)
+                    _, st_plain, _ = F.run_script(script, {'sigfield1': b'abc'}, stack_max_items=mi, stack_max_item_size=ms, callstack_limit=cl)
                 finally:
                     env.unpin_random()
+                    env.unpin_clock()
+                # the plain Stack holds what the monitored one held (same pinned clock and randomness)
+                if r['outcome'] == 'ok' and r['nesting'] < 100 and st_plain.list() != r['final']:
+                    fails.append(('limit/plain-run-stack-differs-from-monitored-run', '%d items vs %d monitored; limits=%r script=%s' % (
+                        len(st_plain), len(r['final']), limits, script[:24].hex())))
         except INTERP as e:
             fails.append(('interpreter-failure/%s' % type(e).__name__, 'unmonitored run; limits=%r script=%s..(%dB)' % (
                 limits, script[:24].hex(), len(script))))
@@ -376,6 +384,17 @@ def deep_script(family, depth):
     if family == 'eval':
         s = bytes([C['OP_DUP'], C['OP_EVAL']])
         return bytes([C['OP_PUSH1'], len(s)]) + s + s
+    if family in ('taproot-nest', 'merkleval-nest', 'mixed-nest'):
+        # evaluations entered through the TAPROOT script path / MERKLEVAL count against the call-stack limit like EVAL
+        from . import c09
+        inner = t
+        kinds = {'taproot-nest': ['TAPROOT'], 'merkleval-nest': ['MERKLEVAL'], 'mixed-nest': ['EVAL', 'TAPROOT', 'DEFCALL', 'MERKLEVAL']}[family]
+        for i in range(depth):
+            inner = c09.wrap(kinds[i % len(kinds)], inner)
+        return inner
+    if family == 'copy-scale':
+        # 1 + 255 * depth items: beyond the default 1024, for embedders that configure a larger stack
+        return bytes([C['OP_PUSH0'], 1]) + bytes([C['OP_COPY'], 255]) * depth
     if family == 'rec-through':
         return R.encode(render.lower([['def', 0, rec_through(0)[depth]], I('OP_CALL', 0)]))
     raise ValueError(family)
@@ -453,6 +472,14 @@ def task_deep(ctx):
     for vi in range(len(rec_through(0))):
         for cl in (1, 3, 7):
             items.append(('rec-through', vi, (1024, 1024, cl)))
+    for f in ('taproot-nest', 'merkleval-nest', 'mixed-nest'):
+        for cl in (1, 2, 3):
+            for d in (cl - 1, cl, cl + 1, cl + 2):
+                if d >= 1:
+                    items.append((f, d, (1024, 1024, cl)))
+    for mi in (1023, 1024, 1025, 1100, 2000, 5000, 70000):
+        for d in (4, 5, 8, 20):
+            items.append(('copy-scale', d, (mi, 1024, 128)))
     for i, (f, d, lim) in enumerate(items):
         if i % ctx.nshards != ctx.shard:
             continue
